@@ -9,6 +9,7 @@ CONSTANTS
   Ops <- MCOps
   ScaleArgs <- MCScaleArgs
   MinFreqs = {2}
+  CellArgs <- MCCellArgs
   RetCands <- MCRetCands
   ProjAxes <- MCProjAxes
   MergeArgs <- MCMergeArgs
